@@ -85,8 +85,17 @@ class C37(dst.Check):
         events = []
         for _ in range(nev):
             t = r.wchoice([('p2p', 5), ('coll', 4), ('compute', 2), ('sleep', 1.5), ('waitall', 1.5), ('sendrecv', 0.7),
-                           ('test', 0.4), ('wait', 0.6)])
-            if t == 'p2p':
+                           ('test', 0.4), ('wait', 0.6), ('pairtag', 0.7)])
+            if t == 'pairtag':
+                # two sends pending at once between the same ranks with the SAME tag, waited one by one in posting order
+                # with another message in between: the replay must pick the oldest request of the (src, dst, tag) key
+                a = r.below(np)
+                b = (a + 1 + r.below(np - 1)) % np
+                c = r.choice([x for x in range(np) if x != a])
+                big, small = r.choice([200000, 1000000, 4000000]), r.choice([8, 100, 1000])
+                n1, n2 = (big, small) if r.chance(0.7) else (small, big)
+                events.append(dict(t='pairtag', a=a, b=b, c=c, n1=n1, n2=n2, tag=100 + len(events)))
+            elif t == 'p2p':
                 a = r.below(np)
                 b = (a + 1 + r.below(np - 1)) % np
                 events.append(dict(t='p2p', a=a, b=b, n=_size(r), tag=r.below(4), s=r.choice(['send', 'send', 'isend']),
@@ -147,6 +156,17 @@ class C37(dst.Check):
                         live[who].append(nreq[who])
                         tags[who][nreq[who]] = (peer, 's' if who == a else 'r', tag)
                         nreq[who] += 1
+            elif t == 'pairtag':
+                a, b, c = ev['a'], ev['b'], ev['c']
+                maxbuf = max(maxbuf, ev['n1'], ev['n2'])
+                if nreq[a] >= 58:
+                    continue
+                s1, s2 = nreq[a], nreq[a] + 1
+                nreq[a] += 2
+                ops[a] += ['isend %d %d %d' % (b, ev['tag'], ev['n1']), 'isend %d %d %d' % (b, ev['tag'], ev['n2']),
+                           'wait %d' % s1, 'send %d %d %d' % (c, ev['tag'] + 1, 8), 'wait %d' % s2]
+                ops[b] += ['recv %d %d %d' % (a, ev['tag'], ev['n1']), 'recv %d %d %d' % (a, ev['tag'], ev['n2'])]
+                ops[c].append('recv %d %d %d' % (a, ev['tag'] + 1, 8))
             elif t == 'sendrecv':
                 a, b = ev['a'], ev['b']
                 maxbuf = max(maxbuf, ev['n'], ev['m'])
